@@ -729,7 +729,10 @@ func (c *kctx) execOp(i int, op KOp) {
 			relaxed = true
 			c.res.Probes[kpAckTruncated]++
 		} else if f.AckShort != 0 && f.AckShort-1 < 36 {
-			// an ACK of 20..35 bytes: the errno is there, judged like any other
+			// an ACK of 20..35 bytes: the errno is there, the echoed request is not (all)
+			// there. No kernel sends that and the statement does not speak about it: a
+			// call may refuse such an ACK; it must not turn a refusal into success.
+			relaxed = true
 			c.res.Probes[kpAckBareErrno]++
 		}
 		if r.AckMistyped {
@@ -1214,7 +1217,9 @@ func (c *kctx) execWaitAcks(i int, auto bool) {
 		expect = append(expect, idx)
 		if v := k.Ledger[idx].Verdict; v != 0 {
 			wantErrno = v
-			mistyped = k.Ledger[idx].AckMistyped
+			// (an ACK without the whole echoed request may be refused as malformed: like a
+			// refusal that did not come as an NLMSG_ERROR, any error is acceptable then)
+			mistyped = k.Ledger[idx].AckMistyped || faultOf(c.p, idx).AckShort != 0
 			break
 		}
 	}
